@@ -264,7 +264,7 @@ def run(ctx):
                     cases.append(handwritten_ops_case("h%d" % hk, rng, n, named, generic))
                     hk += 1
     ctx.rule = ("types: tuple/named structs with 1-4 Tag fields (concrete and generic, raw-identifier names), enums with 1-4 variants drawn from tuple(0-3)/named(0-2)/unit; "
-                "all 24 operator derives, scalar and forward Mul-likes, every ordered pair of variants, iterators of length 0-3; "
+                "all 24 operator derives, scalar and forward Mul-likes, every ordered pair of variants, iterators of length 0-3; Sum/Product also next to hand-written Add/Mul impls of the type; "
                 "distinct = distinct (kind, field layout, arity, genericity, variant-kind set) tuples; every case applies several operators so none is trivial")
     ctx.assumptions += ["rt::Tag implements every operator with a non-commutative mix and logs each call"]
     res = l2.build_and_run(ctx, "ops", cases)
